@@ -192,7 +192,7 @@ func checkC16(w *World, r *Report) {
 			}
 			// every static caller of the helper must itself be confined
 			ncall := 0
-			for caller := range allModuleFuncs(w, w.SSA()) {
+			for _, caller := range sortedModuleFuncs(w, w.SSA()) {
 				for _, c := range callsIn(caller) {
 					if c.Common().StaticCallee() != g {
 						continue
@@ -212,7 +212,7 @@ func checkC16(w *World, r *Report) {
 				bad = ssaFuncKey(g) + " connects through the upstreams but has no static caller (HandleConnection does not reach it)"
 			}
 		}
-		for g := range allModuleFuncs(w, w.SSA()) {
+		for _, g := range sortedModuleFuncs(w, w.SSA()) {
 			if g.Pkg == nil || g.Pkg.Pkg.Path() != modPath+"/internal/client/listener" {
 				continue
 			}
